@@ -280,6 +280,8 @@ def install(it):
     @_abs_dispatch("array")
     def np_array(it_, ctx, x, dtype=None, copy=True, **kw):
         from . import symlist
+        if isinstance(x, MaskedSel):
+            return MaskedSel(x.arr.copy(), x.mask)
         if isinstance(x, Vec):
             return x.copy()
         if isinstance(x, SymArr):
@@ -322,6 +324,12 @@ def install(it):
                 if shape < 0:
                     raise_("ValueError", "negative dimensions are not allowed")
                 return Vec([v] * shape)
+            if is_z3(shape) and arrays.mask_of_count(shape) is not None:
+                m_ = arrays.mask_of_count(shape)
+                full = SymArr(m_.n, lambda i: v)
+                if isinstance(dtype, BuiltinClass) and "complex" in dtype.name:
+                    full.dtype_complex = True
+                return MaskedSel(full, m_)
             if is_z3(shape):
                 if shape.sort() != I:
                     raise_("TypeError", "'float' object cannot be interpreted as an integer")
@@ -433,6 +441,8 @@ def install(it):
     reg("arange", np_arange)
 
     def np_where(it_, ctx, c, *ab):
+        if not ab and isinstance(c, MaskedSel):
+            return (WhereIdx(c),)
         if not ab:
             if isinstance(c, Vec) and c.ndim == 1:
                 return (Vec([i for i, m in enumerate(c.data) if (m if isinstance(m, bool) else ctx.branch(as_bool(m)))]),)
@@ -565,9 +575,15 @@ def install(it):
         return is_scalar(x) or isinstance(x, str)
     reg("isscalar", np_isscalar)
 
-    @_abs_dispatch("interp")
     def np_interp(it_, ctx, x, xp, fp, left=None, right=None, period=None):
-        from . import interp_spec
+        from . import interp_spec, absarr
+        sym = lambda v: isinstance(v, absarr.AbsArr) or (isinstance(v, SymArr) and not isinstance(v.n, int))
+        if (sym(xp) or sym(fp)) and left is None and right is None:
+            if isinstance(xp, Vec):
+                xp = arrays.to_symarr(xp) if hasattr(arrays, "to_symarr") else xp
+            if isinstance(fp, Vec):
+                fp = arrays.to_symarr(fp) if hasattr(arrays, "to_symarr") else fp
+            return absarr.interp_abstract(ctx, x, xp, fp, period)
         return interp_spec.np_interp(it_, ctx, x, xp, fp, left, right, period)
     reg("interp", np_interp)
 
@@ -799,6 +815,12 @@ def install(it):
         if len(shape) == 1:
             if isinstance(shape[0], int):
                 return Vec([draw(ctx) for _ in range(shape[0])])
+            m_ = arrays.mask_of_count(shape[0])
+            if m_ is not None:
+                f = z3.Function(str(ctx.fresh("randarr", I)), I, R)
+                k = ctx.fresh("k_rand", I)
+                ctx.assume(z3.ForAll([k], z3.And(f(k) >= 0, f(k) < 1)))
+                return MaskedSel(SymArr(m_.n, lambda i: f(lift(i))), m_)
             f = z3.Function(str(ctx.fresh("randarr", I)), I, R)
             k = ctx.fresh("k_rand", I)
             ctx.assume(z3.ForAll([k], z3.And(f(k) >= 0, f(k) < 1)))
@@ -839,6 +861,12 @@ def install(it):
             r = ctx.fresh("rayleigh", R)
             ctx.assume(r >= 0)
             return r
+        if isinstance(size, tuple) and len(size) == 1 and is_z3(size[0]) and arrays.mask_of_count(size[0]) is not None:
+            m_ = arrays.mask_of_count(size[0])
+            f = z3.Function(str(ctx.fresh("rayarr", I)), I, R)
+            k = ctx.fresh("k_ray", I)
+            ctx.assume(z3.ForAll([k], f(k) >= 0))
+            return MaskedSel(SymArr(m_.n, lambda i: f(lift(i))), m_)
         if isinstance(size, tuple) and len(size) == 1 and is_z3(size[0]):
             f = z3.Function(str(ctx.fresh("rayarr", I)), I, R)
             k = ctx.fresh("k_ray", I)
@@ -896,6 +924,21 @@ def install(it):
     for nm in ("fft", "ifft", "rfft", "irfft", "fftfreq", "rfftfreq"):
         spfft.globals[nm] = Builtin("scipy.fft." + nm, fftfn(nm), True)
         npfft.globals[nm] = Builtin("np.fft." + nm, fftfn(nm), True)
+
+    def rfftfreq(it_, ctx, n, d=1):
+        """rfftfreq(n, d)[k] = k / (n d), k = 0 .. n//2  (element-wise exact)"""
+        if is_arr(n) or is_arr(d):
+            raise Unsupported("rfftfreq with array arguments")
+        if isinstance(n, int):
+            if n <= 0:
+                raise_("ValueError", "n should be positive")
+            return Vec([num_binop("/", k, num_binop("*", n, d)) for k in range(n // 2 + 1)])
+        if not ctx.branch(num_cmp(">", n, 0)):
+            raise_("ValueError", "n should be positive")
+        ln = lift(n) / 2 + 1
+        return SymArr(ln, lambda k: num_binop("/", k, num_binop("*", n, d)))
+    spfft.globals["rfftfreq"] = Builtin("scipy.fft.rfftfreq", rfftfreq, True)
+    npfft.globals["rfftfreq"] = Builtin("np.fft.rfftfreq", rfftfreq, True)
     spsig = ModuleVal("scipy.signal", "lib")
     it.lib["scipy.signal"] = spsig
     sp.globals["signal"] = spsig
